@@ -935,6 +935,13 @@ func (dc *DirectConnection) WriteSetStatement() error {
 	assigned := make(map[string]bool)
 	for _, v := range dc.sessionVariables.GetAll() {
 		name := dc.backendVariableName(v.Name())
+		if name != v.Name() {
+			// a session that holds both spellings of one backend variable: the value recorded under the backend's
+			// own name is the one sent, whatever the order in which the map is walked
+			if _, ok := dc.sessionVariables.Get(name); ok {
+				continue
+			}
+		}
 		assigned[name] = true
 		appendSetVariable(&setVariableSQL, name, v.Get())
 	}
